@@ -291,6 +291,7 @@ density_sketch<T, K, A> density_sketch<T, K, A>::deserialize(std::istream& is, c
 
   const auto num_retained = read<uint32_t>(is);
   const auto n = read<uint64_t>(is);
+  if (!is.good()) throw std::runtime_error("error reading from std::istream");
 
   // levels arrays
   size_t pt_size = sizeof(T) * dim;
@@ -298,6 +299,7 @@ density_sketch<T, K, A> density_sketch<T, K, A>::deserialize(std::istream& is, c
   int64_t num_to_read = num_retained; // num_retrained is uint32_t so this allows error checking
   while (num_to_read > 0) {
     const auto level_size = read<uint32_t>(is);
+    if (!is.good()) throw std::runtime_error("error reading from std::istream");
     Level lvl(allocator);
     lvl.reserve(level_size);
     for (uint32_t i = 0; i < level_size; ++i) {
